@@ -35,6 +35,9 @@ type Event struct {
 	Kind string // call, send, recv, select, go, lock, unlock, close, sleep, block
 	What string
 	Args []*Val
+	ArgTypes []types.Type
+	Rets []*Val
+	RetTypes []types.Type
 	Pos  string
 	Instr ssa.Instruction
 	Blocking bool
@@ -51,6 +54,7 @@ type cell struct {
 type deferred struct {
 	call *ssa.CallCommon
 	args []*Val
+	argTypes []types.Type
 	fn   *Val
 	instr ssa.Instruction
 }
@@ -90,6 +94,8 @@ type State struct {
 	pendingHavoc []string
 	Shared []string
 	Entry  map[int]*entrySnap
+	// Private: refs of struct objects allocated here whose address provably never escapes this body.
+	Private map[string]bool
 }
 
 func (s *State) clone() *State {
@@ -106,6 +112,7 @@ func (s *State) clone() *State {
 		Ghost: make(map[string]string, len(s.Ghost)),
 		PathID: s.PathID,
 		Shared: s.Shared,
+		Private: s.Private,
 		Entry:  s.Entry,
 		Epoch:  s.Epoch,
 		pendingHavoc: s.pendingHavoc[:len(s.pendingHavoc):len(s.pendingHavoc)],
@@ -186,6 +193,8 @@ type Engine struct {
 	pathCounter int
 	tagTypes    []types.Type
 	globLen     map[*ssa.Global]int64
+	entryMeasure string
+	curArgTypes  []types.Type
 	entryLines  int
 	entryState  *State
 }
